@@ -19,7 +19,8 @@ LEVEL_TEXT = ("Generated batch parameter definitions: 0-4 parameters, each a sca
               "for every permutation (deterministic order), estimate_batch agrees with the reference count; for each "
               "combination build_option_for_parameters, and the option part of build_final_command, render exactly "
               "the multiset {--name value | --name sub:value} of the chosen values (an empty value renders the bare "
-              "flag) and nothing else. Sampling, not proof.")
+              "flag) and nothing else. A third of the cases expand a second "
+              "definition with the same names and other values in the same process. Sampling, not proof.")
 LEVEL_NOTE = ("Trusted: the reference product (itertools over the case description, independent of the code's sorting) "
               "and the whitespace tokeniser (generated names/values contain no whitespace, braces or colons). The "
               "empty definition is in the domain (estimate_batch counts it as one job): its expansion must be the "
